@@ -262,20 +262,27 @@ var caseCounter int64
 var landing sync.Map // "scenario/size/syscall/kind" -> count
 
 // enumerate runs the dry run for one configuration and then one injected run per (syscall, fault).
-func enumerate(base string, scenario string, size int, seed int64, srcfile bool, stride int, W int) {
+func enumerate(base string, scenario string, size int, seed int64, srcfile bool, stride int, W int, extra ...string) {
 	cfg := fmt.Sprintf("%s/size=%d/srcfile=%v", scenario, size, srcfile)
+	// extra: further arguments for the child, e.g. "flip=N" (the source delivers a different byte
+	// at offset N on its second pass, so that Put fails by itself at its own hash re-check)
+	wantDry, killsOnly := "PUTOK", false
+	if len(extra) > 0 {
+		cfg += "/" + strings.Join(extra, ",")
+		wantDry, killsOnly = "PUTERR", true
+	}
 	e, err := setup(base, atomic.AddInt64(&caseCounter, 1), scenario, size, seed, srcfile)
 	if err != nil {
 		run.Inconclusive("setup: " + err.Error())
 		return
 	}
-	dry, err := vlib.RunStrace(filepath.Join(e.dir, "strace.log"), "", nil, e.childArgs()...)
-	if err != nil || dry.Begin < 0 || dry.End < 0 || !strings.HasPrefix(dry.Stdout, "PUTOK") {
+	dry, err := vlib.RunStrace(filepath.Join(e.dir, "strace.log"), "", nil, e.childArgs(extra...)...)
+	if err != nil || dry.Begin < 0 || dry.End < 0 || !strings.HasPrefix(dry.Stdout, wantDry) {
 		run.Inconclusive(fmt.Sprintf("dry run of %s failed: %v %q", cfg, err, dryOut(dry)))
 		os.RemoveAll(e.dir)
 		return
 	}
-	verify(e, "none", true, func(kind, detail string) {
+	verify(e, "none", wantDry == "PUTOK", func(kind, detail string) {
 		if !limited(kind) {
 			run.Violation(fmt.Sprintf("%s %s no-fault", kind, cfg), kind+" without any fault ("+cfg+"): "+detail, fcase{kind, scenario, size, "none", nil, nil, detail})
 		}
@@ -298,6 +305,9 @@ func enumerate(base string, scenario string, size int, seed int64, srcfile bool,
 		}
 		jobs = append(jobs, job{j, fmt.Sprintf("%s:signal=SIGKILL:when=%d", s.Name, s.Ordinal), "kill-before"})
 		for _, en := range errnoFor[s.Name] {
+			if killsOnly {
+				break
+			}
 			jobs = append(jobs, job{j, fmt.Sprintf("%s:error=%s:when=%d", s.Name, en, s.Ordinal), "error-" + en})
 		}
 	}
@@ -310,7 +320,7 @@ func enumerate(base string, scenario string, size int, seed int64, srcfile bool,
 				run.Inconclusive("setup: " + err.Error())
 				return
 			}
-			res, err := vlib.RunStrace(filepath.Join(e.dir, "strace.log"), jb.inject, nil, e.childArgs()...)
+			res, err := vlib.RunStrace(filepath.Join(e.dir, "strace.log"), jb.inject, nil, e.childArgs(extra...)...)
 			if err != nil || res.TimedOut || res.Begin < 0 {
 				os.RemoveAll(e.dir)
 				if attempt == 1 {
@@ -814,6 +824,13 @@ func main() {
 		stride := r.Pick(2, 1)
 		for i, c := range cfgs {
 			enumerate(base, c.scenario, c.size, int64(100+i), c.srcfile, stride, W)
+		}
+		// a source that changes between its two passes (Put fails by itself at the hash re-check),
+		// stopped at every file-operation boundary - with an index entry already naming that output
+		for i, sz := range r.PickInts([]int{2, 40000}, []int{1, 2, 4096, 32769, 40000, 160 << 10}) {
+			for _, sc := range []string{"stale-index", "new", "overwrite"} {
+				enumerate(base, sc, sz, int64(300+i), false, 1, W, fmt.Sprintf("flip=%d", sz/2))
+			}
 		}
 		// short writes
 		var swJobs []cfg
